@@ -35,7 +35,7 @@ ASSUMPTIONS = ['fractions.Fraction arithmetic and sympy.expand are correct',
                '(monitored; deviations are reported in the evidence as float_lines_outside_symbolic)']
 TIERS = {
     'quick': {'shards': 14, 'random': 4200, 'timeout': 600, 'min_cases': 3000,
-              'require_branches': ['symbolic:identities-proved']},
+              'require_branches': ['symbolic:identities-proved', 'requery-after-control-point-assignment']},
     'thorough': {'shards': 14, 'random': 200000, 'timeout': 3000, 'min_cases': 100000,
                  'require_branches': ['symbolic:identities-proved']},
 }
@@ -354,6 +354,12 @@ def _ctrl_points(rng, n, cls):
         pts[-1] = pts[0]
     elif cls == 'int':
         pts = [complex(rng.randint(-9, 9), rng.randint(-9, 9)) for _ in range(n + 1)]
+    elif cls == 'origin':
+        # zero coefficients in the power basis: start at the origin, sometimes a vanishing linear/top term as well
+        pts = [p() for _ in range(n + 1)]
+        pts[0] = 0j
+        if n >= 2 and rng.random() < 0.4:
+            pts[1] = 0j
     else:
         raise ValueError(cls)
     if n == 1 and pts[0] == pts[1]:
@@ -368,7 +374,7 @@ def cases(ctx):
     n = plan['random'] // ctx.nshards
     for i in range(n):
         deg = rng.choice([1, 2, 2, 3, 3, 3])
-        cls = rng.choice(['generic', 'generic', 'coincident', 'collinear', 'closed', 'int'])
+        cls = rng.choice(['generic', 'generic', 'coincident', 'collinear', 'closed', 'int', 'origin'])
         if deg == 1 and cls in ('coincident', 'closed'):
             cls = 'generic'
         pts = _ctrl_points(rng, deg, cls)
@@ -417,6 +423,29 @@ def run_case(ctx, case):
     P.bez2poly(tuple(pts), numpy_ordering=False)
     P.bez2poly(seg, return_poly1d=True)
     P.bpoints2bezier(list(pts))
+    # the same object after its control points were reassigned (a cached representation must not survive)
+    shift = complex(case['ts'][5], case['ts'][6]) * (1 + abs(pts[0]))
+    if deg >= 2:
+        if deg == 2:
+            seg.control = seg.control + shift
+        else:
+            seg.control1 = seg.control1 + shift
+            seg.control2 = seg.control2 - 2 * shift
+        ctx.branch('requery-after-control-point-assignment')
+        for t in ts[4:7]:
+            seg.point(t)
+            seg.derivative(t, 1)
+        seg.points(ts)
+        seg.poly()
+        seg.poly(return_coeffs=True)
+        P.bez2poly(seg)
+        if seg.poly().order >= 1:
+            P.poly2bez(seg.poly())
+    seg.end = seg.end + shift
+    seg.start = seg.start - shift
+    seg.poly()
+    seg.points(ts)
+    seg.point(ts[5])
     # premise of the symbolic identity: float runs execute only lines the symbolic run executed
     _sample_counter[0] += 1
     if _sample_counter[0] % 50 == 1 and SYM_LINES.get('all'):
